@@ -929,7 +929,10 @@ def _check_pvalues(tables, ref, ctx):
         for fs, (p, _) in rows.items():
             w, exact = ref[n]["table"][fs]
             pe = float(exact)
-            require(math.isfinite(p) and abs(p - pe) <= 1e-9 * pe,
+            # relative 1e-9; below 1e-300 (next to and inside the subnormal range, where a
+            # double has no relative precision left: 2.08125e-319 and 2.0812e-319 are
+            # neighbours) only the magnitude is compared
+            require(math.isfinite(p) and abs(p - pe) <= max(1e-9 * pe, 1e-300),
                     lambda: "size %d hyperedge %r (weight %d, N=%d): pvalue %r, expected "
                             "P[Bin(N, prod K_i/N) >= weight] = %r (relative difference %.3g > 1e-9)"
                     % (n, tuple(sorted(fs)), w, ref[n]["N"], p, pe,
